@@ -817,7 +817,14 @@ impl CKBProtocolHandler for Relayer {
             Ok(msg) => {
                 let item = msg.to_enum();
                 if let packed::RelayMessageUnionReader::CompactBlock(ref reader) = item {
-                    if reader.count_extra_fields() > 1 {
+                    // the only extra field a compact block may carry is the extension, which must
+                    // be a well-formed `Bytes`: the compatible decoding does not look into extra fields
+                    let malformed_extension = reader
+                        .to_entity()
+                        .extra_field(0)
+                        .map(|data| packed::BytesReader::verify(&data, false).is_err())
+                        .unwrap_or(false);
+                    if reader.count_extra_fields() > 1 || malformed_extension {
                         info_target!(
                             crate::LOG_TARGET_RELAY,
                             "Peer {} sends us a malformed message: \
